@@ -18,6 +18,8 @@ def auto(site):
         if site.kind == 'div0':
             return 'P1 width: divisor range %s excludes 0' % (d.get('divisor'),)
         return 'P1 width'
+    if site.kind == 'neg' and d.get('safe_by_width'):
+        return 'P1 width: operand range %s excludes %s::MIN (the only value whose negation overflows)' % (d.get('a'), d.get('ty'))
     if site.kind == 'overflow:Div':
         dv = d.get('b')
         if dv is not None and dv[0] >= 0:
